@@ -360,6 +360,25 @@ func registerBigModels(ex *Exec) {
 			if op == OURem && y.max().Cmp(m) < 0 {
 				m = y.max()
 			}
+			if op == OURem && y.T.IsConst() {
+				// x mod N by conditional subtraction when x is known to be below a small multiple of N
+				nv := y.T.BigVal()
+				for k := int64(1); k <= 4; k++ {
+					if x.max().Cmp(new(big.Int).Mul(nv, big.NewInt(k))) < 0 {
+						r := x.T
+						for j := k - 1; j >= 1; j-- {
+							lim := c.BVBig(ex.bigW(), new(big.Int).Mul(nv, big.NewInt(j)))
+							_ = lim
+						}
+						// subtract N up to k-1 times
+						for j := int64(1); j < k; j++ {
+							ge := c.Cmp(OUle, y.T, r)
+							r = c.Ite(ge, c.Sub(r, y.T), r)
+						}
+						return ex.bigSet(s, a[0], bigWithMax(r, new(big.Int).Sub(nv, bigOne)))
+					}
+				}
+			}
 			return ex.bigSet(s, a[0], bigWithMax(c.BVOp(op, x.T, y.T), m))
 		}
 	}
